@@ -119,10 +119,10 @@ type Boundary struct {
 
 // GapText is what a layout puts into a gap.
 type GapText struct {
-	Blanks   string // blanks/tabs (used when no other field is set)
-	Cont     bool   // insert a backslash-newline (between blanks as needed)
-	Comment  string // comment text without "#" (only before a newline / at end)
-	Newlines int    // extra newlines (only where Linebreak); each may carry a comment
+	Blanks     string // blanks/tabs (used when no other field is set)
+	Cont       bool   // insert a backslash-newline (between blanks as needed)
+	Comment    string // comment text without "#" (only before a newline / at end)
+	Newlines   int    // extra newlines (only where Linebreak); each may carry a comment
 	NLComments []string
 }
 
